@@ -106,6 +106,21 @@ def rule_default(prog, rep):
             "AbstractDistribution._sample_and_log_prob", got, want, "default joint path")
 
 
+def _sink_ite(t):
+    """`Transformed(b, X) if c else Transformed(b, Y)` and `Transformed(b, X if c else Y)` are the same object: a choice
+    between two calls of one constructor that differ in a single argument is the call on the choice."""
+    if t[0] == "ite" and t[2][0] == "call" and t[3][0] == "call" and t[2][1] == t[3][1] and t[2][1][0] == "ext" \
+            and len(t[2][2]) == len(t[3][2]) and [k for k, _ in t[2][3]] == [k for k, _ in t[3][3]]:
+        a, b = t[2], t[3]
+        diff = [i for i, (x, y) in enumerate(zip(a[2], b[2])) if x != y] + \
+               [k for (k, x), (_, y) in zip(a[3], b[3]) if x != y]
+        if len(diff) == 1:
+            args = tuple(x if x == y else ("ite", t[1], x, y) for x, y in zip(a[2], b[2]))
+            kws = tuple((k, x if x == y else ("ite", t[1], x, y)) for (k, x), (_, y) in zip(a[3], b[3]))
+            return ("call", a[1], args, kws)
+    return t
+
+
 def rule_factories(prog, rep):
     rep.rule("C03.factory", "every flow factory returns Transformed(base_dist, Invert(Scan(layers)) if invert else "
                             "Scan(layers)) over one and the same stacked layer object (sibling agreement)", minimum=5)
@@ -120,7 +135,7 @@ def rule_factories(prog, rep):
         fn = m.functions[name]
         kwargs = {a.arg: ("sym", a.arg.upper()) for a in fn.args.kwonlyargs}
         it = Interp(prog, no_inline={"flowjax.flows._add_default_permute", "flowjax.flows._affine_with_min_scale"})
-        t = it.eval_function(f"flowjax.flows.{name}", [("sym", "KEY")], kwargs)
+        t = _sink_ite(it.eval_function(f"flowjax.flows.{name}", [("sym", "KEY")], kwargs))
         site = f"{m.relpath}:{fn.lineno}"
         if has_unknown(t):
             rep.undecided("C03.factory", site, name, f"unmodelled: {find_unknown(t)}")
@@ -155,7 +170,7 @@ def factory_term(prog, name):
     fn = m.functions[name]
     kwargs = {a.arg: ("sym", a.arg.upper()) for a in fn.args.kwonlyargs}
     it = Interp(prog, no_inline={"flowjax.flows._add_default_permute", "flowjax.flows._affine_with_min_scale"})
-    return m, fn, it.eval_function(f"flowjax.flows.{name}", [("sym", "KEY")], kwargs)
+    return m, fn, _sink_ite(it.eval_function(f"flowjax.flows.{name}", [("sym", "KEY")], kwargs))
 
 
 def rule_factory_condition(prog, rep, R="C03.factory-cond"):
